@@ -22,7 +22,10 @@ def file_bytes(path):
 
 def state_bloom(f, path=None):
     s = {"bytes": bytes(f), "hex": f.export_hex(), "elements_added": f.elements_added, "cells": bl.cells_of(f),
-         "geometry": (f.number_bits, f.number_hashes, f.estimated_elements, f.false_positive_rate, f.bloom_length)}
+         "geometry": (f.number_bits, f.number_hashes, f.estimated_elements, f.false_positive_rate, f.bloom_length),
+         # what the statistics and the string form report is observable too (a memo that survives clear() shows here)
+         "estimate_elements()": f.estimate_elements(), "current_false_positive_rate()": f.current_false_positive_rate(),
+         "str": str(f).replace("is on disk: yes", "is on disk: ?").replace("is on disk: no", "is on disk: ?")}
     if path is not None:
         s["backing_file"] = file_bytes(path)
     return s
